@@ -76,6 +76,15 @@ def build_lib(outdir, name, cc, extra, incdir, prefix=None, rename_sections=Fals
     compile_many(jobs)
     rel = os.path.join(outdir, name + ".o")
     run(["ld", "-r", "-o", rel] + objs)
+    # ambient sources (clock, random, environment, sleeping, blocking locks) go behind simulator-owned shims
+    # (sim/ambient.cc); the current tree imports none of them, so this is a no-op unless a change adds one
+    amb = os.path.join(od, "ambient.txt")
+    with open(amb, "w") as f:
+        for fn in ("time", "clock", "clock_gettime", "gettimeofday", "rand", "random", "srand", "srandom", "rand_r",
+                   "getenv", "getpid", "sleep", "usleep", "nanosleep", "sched_yield", "pthread_mutex_lock",
+                   "pthread_spin_lock"):
+            f.write("%s h3amb_%s\n" % (fn, fn))
+    run(["objcopy", "--redefine-syms=" + amb, rel])
     if prefix:
         syms = run(["nm", "--defined-only", "-g", rel]).split("\n")
         mapping = os.path.join(od, "redefine.txt")
